@@ -31,7 +31,7 @@ MARKUP = ["&", "<", ">", '"', "'", "]]>", "&amp;", "&#10;", "<![CDATA[", "<a:t>"
           "<?xml", "-->", "<!--", "&#x0;", "%", "\\", "{", "}"]
 WS = [" ", "  ", "\t", " \t "]
 ASTRAL = ["\U0001F600", "\U00010348", "\u2028", "\u00e9", "\u4e2d", "\ufffd", "\u200b", "\u0301", "\u00a0", "\ud7ff", "\ue000", "\ufffd"]
-WORDS = ["foo", "Bar", "baz qux", "x", "Lorem ipsum", "0", "-1", "NaN", "null", "A1", "Sheet1!$A$1"]
+WORDS = ["foo", "Bar", "baz qux", "x", "Lorem ipsum", "0", "-1", "NaN", "null", "A1", "Sheet1!$A$1", "@x", "+1", "http://e.x/"]
 
 
 def xml_text(r: random.Random, maxlen: int = 24, allow_empty: bool = True) -> str:
